@@ -17,7 +17,8 @@ def strategy(tier):
     return st.fixed_dictionaries({
         'spec': st.one_of(specs.full_spec(max_nodes=9 if tier == 'quick' else 12),
                           specs.full_spec(max_nodes=9 if tier == 'quick' else 12),
-                          specs.full_spec(max_nodes=9 if tier == 'quick' else 12), specs.two_conn_spec()),
+                          specs.full_spec(max_nodes=9 if tier == 'quick' else 12), specs.two_conn_spec(),
+                          specs.conn_dv_spec()),
         'enc': st.sampled_from(['COMPLETE', 'FAST']),
         'vseed': st.integers(0, 2**32),
     })
